@@ -26,8 +26,9 @@ def noLit (rules : List Rule) (w rest : List Ch) : Bool :=
 /-- `Closed rules w rest`: a sufficient, *local* condition (it looks at `w` and at most ONE following character) for
     "every rule of the INITIAL state matches `w ++ rest` exactly as it matches `w`" — no rule can extend the lexeme `w`.
     It excludes lexemes starting with a backslash, a double quote or a blank, `/` directly followed by `/` or `*`,
-    an identifier / number directly followed by an identifier character / digit, `.`, `e`, `E`, float literals
-    (only all-digit numbers are covered), and any adjacency that is the prefix of a longer literal rule (`-` `u`, `<` `<`, `A` `[`). -/
+    an identifier directly followed by an identifier character, a number (integer or float literal: `floatLen w = |w|`)
+    directly followed by a digit, `.`, `e` or `E`, and any adjacency that is the prefix of a longer literal rule
+    (`-` `u`, `<` `<`, `A` `[`). -/
 def Closed (rules : List Rule) (w rest : List Ch) : Bool :=
   match w with
   | [] => false
@@ -36,7 +37,7 @@ def Closed (rules : List Rule) (w rest : List Ch) : Bool :=
     !(pre [47, 47] (w ++ rest.take 1)) && !(pre [47, 42] (w ++ rest.take 1)) &&
     (!isAlpha c0 || stopsIn isIdChr w' rest) &&
     stopsIn isDigit w rest &&
-    (!isDigit c0 || (w.all isDigit && headNot rest (fun d => isDigit d || d == 46 || d == 101 || d == 69))) &&
+    (!isDigit c0 || (floatLen w == w.length && headNot rest (fun d => isDigit d || d == 46 || d == 101 || d == 69))) &&
     noLit rules w rest
 
 /-- the text of a block comment may be followed by `*/`: at no position inside it does the `EXPECT:` rule or the `*/` rule fire -/
